@@ -65,6 +65,17 @@ CHECKS = {
               "references from the declaring package are never candidates; per file ignore-first, PKGO01 once per (package,type), PKGO02/03 each (same dedup theorem as C03). Same correspondence as C01."),
         note="Fragment: non-generic defined types, direct imports, one candidate per line; go/parser + go/types facts are inputs serialised verbatim by `ggx skel`; well-formedness (no FuncDecl nested in a declaration) evaluated by the model on every serialised package. Dot-imports, fields of @packageonly structs and promoted methods are left unspecified (DESIGN 5.1).",
         technique="Coq proof (union/denied characterisation, dedup theorem) + model/implementation correspondence"),
+    "C07": dict(
+        text=("Theorems (Coq): a comment before the package clause covers the whole file; otherwise the scope ends at the end of the first declaration that ends after the comment when the comment "
+              "stands before it, else at the end of the node the stateful pruned walk settles on, which is the FIRST node in source order that starts after the comment (proved for every tree whose "
+              "nodes after the comment are met in position order - a boolean hypothesis evaluated on every serialised comment); inline detection is sound and complete for 'some node begins before "
+              "the comment and starts or ends on its line'; one more marker with codes C over [s,e] suppresses (c,p) iff s<=p<=e and C holds ALL, c's category or c (codes are upper-cased by the "
+              "parser), everything else decided as before; for report-time checkers the new output is the FILTER of the old one; for TONL01/PKGO01 the reported use of a key is the first "
+              "unsuppressed one, for every suppression function. Tied to the code by generated worlds with @ignore comments inserted at the property's placements, stratified over placement x line "
+              "shape x code category x code-list class: binary = model by (file,line,code), and binary(with comments) = binary(without) minus the matching diagnostics inside the documented scope "
+              "computed from go/parser positions (an oracle independent of the model)."),
+        note="A stand-alone comment that is the last thing of its block, precedes a case clause or sits inside a multi-line expression, and files with //line directives, are left unspecified (DESIGN 5.1).",
+        technique="Coq proof (pruned-walk = first node after the comment; marker = filter; first-unsuppressed-use) + model and text-oracle correspondence through the real binary"),
     "C15": dict(
         text=("Obligations (Coq, by computation on the seven regex syntax trees regenerated from the source with Go's own regexp/syntax): all classes within ASCII, nothing untranslated. "
               "The parsers (regex + split/trim/upper post-processing) and the reader's attachment rules are the executable model run against the real readers: exhaustive token sequences per "
